@@ -1,4 +1,30 @@
-(* C13 - placeholder until the theorems are in place. *)
-Require Import RQ.Base.
-Theorem C13_placeholder : True. Proof. exact I. Qed.
-Print Assumptions C13_placeholder.
+(* C13 - Image sources show the texel under the pixel centre (pad/repeat, filter, alpha).
+   PARTIAL: the fetch stage is proved; that the span shaders for integer translations equal the general shaders, and the
+   16.16 matrix error bound, are decided by the bit-exact correspondence. *)
+Require Import RQ.Base RQ.F32 RQ.Rect RQ.Pixel RQ.PathF RQ.Shader RQ.MiscProofs.
+
+(* Nearest: exactly the texel at the floor of the (half-pixel corrected) 16.16 position *)
+Theorem C13_nearest_texel_partial : forall e im px py, fetch_nearest e im px py None = fetch e im (Z.shiftr (px + 32768) 16) (Z.shiftr (py + 32768) 16).
+Proof. exact nearest_texel. Qed.
+(* Repeat wraps modulo the image size, for negative coordinates too *)
+Theorem C13_repeat_wraps_partial : forall im x y, 0 < i_w im -> 0 < i_h im -> repeat_fetch im x y = img_at im (x mod i_w im) (y mod i_h im).
+Proof. exact repeat_fetch_wraps. Qed.
+Print Assumptions C13_repeat_wraps_partial.
+(* Pad clamps to the edge texel *)
+Theorem C13_pad_clamps_partial : forall im x y, 0 < i_w im -> 0 < i_h im ->
+  pad_fetch im x y = img_at im (Z.max 0 (Z.min (i_w im - 1) x)) (Z.max 0 (Z.min (i_h im - 1) y)).
+Proof. exact pad_fetch_clamps. Qed.
+Print Assumptions C13_pad_clamps_partial.
+(* Bilinear: the four weights are built from the 4-bit fractions and sum to 256 (a convex combination) *)
+Theorem C13_bilinear_weights_sum_partial : forall dx dy, 0 <= dx <= 15 -> 0 <= dy <= 15 ->
+  wrapu32 (256 - Z.shiftl dy 4 - Z.shiftl dx 4 + dx * dy) + (Z.shiftl dx 4 - dx * dy) + (Z.shiftl dy 4 - dx * dy) + dx * dy = 256.
+Proof. exact bilinear_weights_sum. Qed.
+Print Assumptions C13_bilinear_weights_sum_partial.
+(* the result is scaled by the global alpha *)
+Theorem C13_alpha_scaling_partial : forall e im px py a, fetch_nearest e im px py (Some a) = alpha_mul (fetch_nearest e im px py None) a.
+Proof. exact nearest_alpha. Qed.
+(* the integer-translation shader: Pad clamps, Repeat wraps (definition of shade), scaled by alpha *)
+Theorem C13_offset_shader_partial : forall im ox oy a x y,
+  shade (ShImageOffset im ExtPad ox oy a) x y = alpha_mul (img_at im (clampi (x + ox) 0 (i_w im - 1)) (clampi (y + oy) 0 (i_h im - 1))) a /\
+  shade (ShImageOffset im ExtRepeat ox oy a) x y = alpha_mul (img_at im ((x + ox) mod i_w im) ((y + oy) mod i_h im)) a.
+Proof. intros. split; reflexivity. Qed.
